@@ -155,6 +155,16 @@ impl Compound {
         meter == Some(1) && second == Some(-2)
     }
 
+    /// Test if any unit has an offset from its base (like `°C`).
+    fn has_offset(&self) -> bool {
+        self.names.keys().any(|unit| {
+            matches!(
+                unit.conversion(),
+                Some(Conversion::Offset(..) | Conversion::Methods(..))
+            )
+        })
+    }
+
     /// Test if a unit with an offset from its base (like `°C`) is used in any
     /// other way than on its own with a power of one.
     fn has_misplaced_offset(&self) -> bool {
@@ -234,6 +244,12 @@ impl Compound {
             };
 
             return Ok(unit);
+        }
+
+        // A scale with an offset cannot be multiplied or divided with another
+        // quantity, its zero point would end up in the product.
+        if self.has_offset() || other.has_offset() {
+            return Err(CompoundError);
         }
 
         let (lhs_der, lhs_bases) = self.base_units();
